@@ -1,95 +1,7 @@
-/-! Scratch: resolution of a plain identifier (compiler.go `case "(name)"`) and the table keys it reads. -/
-namespace Gen
-inductive ResolveStep where
-  | dollar | localType | local | global | builtin | unknown
-  deriving Repr, DecidableEq
-def resolveOrder : List ResolveStep := [.dollar, .localType, .local, .global, .builtin]
-def enterFuncCases : List String := ["function", "init", "lambda", "method"]
-end Gen
-
+import Goat.Model.Resolve
+/-! Lemmas about the identifier-resolution model: what a compilation does to the keys, and the chain. -/
 namespace Goat.Resolve
 open Gen
-
-/-- the keys of the table of globals that the resolution of an identifier reads -/
-inductive Key where
-  | dollar
-  | ltype (fn ty : String)   -- a type declared inside the function named fn: "<fn>.<ty>"
-  | glob (name : String)     -- a package-level name: "<pkg>.<name>"
-  | builtin (name : String)  -- "builtin.<name>"
-  deriving Repr, DecidableEq
-
-/-- what the compiler knows when it meets an identifier: the table of globals (keys only - the lookup is by
-    key) and the names of the functions compiled against it so far -/
-structure Tab where
-  keys : List Key
-  compiled : List String
-  deriving Repr
-
-inductive Res where
-  | localGet (name : String)   -- LOCALGET of the nearest binding (which slot: the Scope model)
-  | globalGet (k : Key)        -- GLOBALGET of that key's slot
-  deriving Repr, DecidableEq
-
-/-- where the identifier stands -/
-structure Ctx where
-  fn : String            -- compiler.FuncName ("" outside every function)
-  inScope : Bool         -- compiler.isLocal(): inside a function body or a block
-  locals : List String   -- names bound in the enclosing scopes of the function (Locals.Exists)
-
-/-- one branch of the chain: `none` = its condition is false -/
-def tryStep (t : Tab) (c : Ctx) (x : String) : ResolveStep → Option Res
-  | .dollar => if x = "$" then some (.globalGet .dollar) else none
-  | .localType => if c.inScope ∧ Key.ltype c.fn x ∈ t.keys then some (.globalGet (.ltype c.fn x)) else none
-  | .local => if x ∈ c.locals then some (.localGet x) else none
-  | .global => if Key.glob x ∈ t.keys then some (.globalGet (.glob x)) else none
-  | .builtin => if Key.builtin x ∈ t.keys then some (.globalGet (.builtin x)) else none
-  | .unknown => none
-
-def firstSome {α β} (f : α → Option β) : List α → Option β
-  | [] => none
-  | a :: as => match f a with
-    | some b => some b
-    | none => firstSome f as
-
-/-- the chain in the order of the source; the last `else` is a forward reference: the package-level key -/
-def resolveWith (order : List ResolveStep) (t : Tab) (c : Ctx) (x : String) : Res :=
-  (firstSome (tryStep t c x) order).getD (.globalGet (.glob x))
-
-def resolve := resolveWith Gen.resolveOrder
-
-/-- the forward reference creates its key (`Index`) -/
-def touch (t : Tab) (r : Res) : Tab :=
-  match r with
-  | .globalGet k => if k ∈ t.keys then t else { t with keys := k :: t.keys }
-  | .localGet _ => t
-
-/-- `enterFunc`: a name compiled before loses the types of the body it replaces -/
-def enterFunc (t : Tab) (f : String) : Tab :=
-  if f = "" then t else
-  { keys := if f ∈ t.compiled then t.keys.filter (fun k => match k with | .ltype g _ => g ≠ f | _ => true) else t.keys,
-    compiled := f :: t.compiled }
-
-/-- a `type` declaration inside function f (`Index` creates the key if it is missing) -/
-def declType (t : Tab) (f ty : String) : Tab :=
-  if Key.ltype f ty ∈ t.keys then t else { t with keys := .ltype f ty :: t.keys }
-
-def declTypes (t : Tab) (f : String) (tys : List String) : Tab := tys.foldl (fun t ty => declType t f ty) t
-
-/-- events that change the table -/
-inductive Ev where
-  | compile (f : String) (tys : List String)   -- a function, method, init or literal named f whose body declares tys
-  | addKey (k : Key)                           -- a package-level definition, a forward reference, a builtin
-  deriving Repr
-
-def Ev.ok : Ev → Prop
-  | .compile f _ => f ≠ ""
-  | .addKey k => ∀ f ty, k ≠ .ltype f ty
-
-def step (t : Tab) : Ev → Tab
-  | .compile f tys => declTypes (enterFunc t f) f tys
-  | .addKey k => if k ∈ t.keys then t else { t with keys := k :: t.keys }
-
-def run (h : List Ev) : Tab := h.foldl step { keys := [], compiled := [] }
 
 /-- every type key belongs to a function that was compiled -/
 def Inv (t : Tab) : Prop := ∀ f ty, Key.ltype f ty ∈ t.keys → f ∈ t.compiled
@@ -304,6 +216,3 @@ example : Key.ltype "main.f" "acc" ∈ (run hist).keys := by decide
 example : resolve (run hist) { fn := "main.f", inScope := true, locals := ["acc"] } "acc" = .globalGet (.ltype "main.f" "acc") := by decide
 
 end Goat.Resolve
-#print axioms Goat.Resolve.recompile_forgets
-#print axioms Goat.Resolve.local_wins_after_any_history
-#print axioms Goat.Resolve.resolve_history_independent
